@@ -95,7 +95,8 @@ def solve_text(text, want_model, t_z3=10, t_cvc5=20, both=False, workdir=None):
             f.write(text)
             f.write('\n')
         mpath = path[:-5] + '_m.smt2'
-        cmds = [('z3', [Z3NEW, '-T:%d' % t_z3, path])]
+        cmds = [('z3', [Z3NEW, '-T:%d' % t_z3, path]),
+                ('z3-4.8', [Z3OLD, '-T:%d' % t_z3, path])]
         if not any(u in text for u in CVC5_UNSUPPORTED):
             cmds.append(('cvc5', [CVC5, '--strings-exp', '--tlimit=%d' % (t_cvc5 * 1000), path]))
         procs, t0 = _race(cmds, max(t_z3, t_cvc5))
@@ -125,15 +126,10 @@ def solve_text(text, want_model, t_z3=10, t_cvc5=20, both=False, workdir=None):
                 pass
             if final == 'unknown' or both:
                 tried.append((tag, 'timeout', round(time.time() - t0, 3)))
-        if both and results.get('z3') in ('sat', 'unsat') and results.get('cvc5') in ('sat', 'unsat') \
-                and results['z3'] != results['cvc5']:
+        definite = {v for v in results.values() if v in ('sat', 'unsat')}
+        if len(definite) > 1:
             return {'verdict': 'disagree', 'backend': 'z3/cvc5', 'tried': tried,
                     'time': time.time() - t0, 'model_text': None}
-        if final == 'unknown':
-            v3, out3, dt3 = run_z3(path, t_z3, binary=Z3OLD)
-            tried.append(('z3-4.8', v3, round(dt3, 3)))
-            if v3 in ('sat', 'unsat'):
-                final, backend = v3, 'z3-4.8'
         model_text = None
         if final == 'sat' and want_model:
             with open(mpath, 'w') as f:
